@@ -172,7 +172,7 @@ CHECKS = {
         "race": True,
         "tags": "",
         "parts": [
-            {"test": "TestC19", "quick": 15, "thorough": 125, "shards": 16, "quick_shards": 4, "race": True, "shrinktime": "5s"},
+            {"test": "TestC19", "quick": 15, "thorough": 50, "shards": 16, "quick_shards": 4, "race": True, "shrinktime": "5s"},
         ],
         "assumptions": ["schedules are those the Go scheduler produces (20 repetitions per job set, GOMAXPROCS 2 and 16); the race detector sees unsynchronised accesses that occur in one execution",
                         "built with -race and without the verif tag (the hook counter would add synchronisation)"],
